@@ -74,7 +74,9 @@ Inductive rds :=
 | XShuffleOnce (perm : list nat) (d : rds)    (* shuffle(False): fixed at construction *)
 | XReShuffle (g : nat) (d : rds)              (* shuffle(True, rng=g) *)
 | XLocal (g : nat) (B : nat) (d : rds)        (* shuffle(True, rng=g, buffer_size=B) *)
-| XPrefetch (d : rds).                        (* prefetch: iterates a frozen copy *)
+| XPrefetch (d : rds)                         (* prefetch: iterates a frozen copy *)
+| XApply (g : nat) (d : rds).                 (* apply(lambda ds: ds.shuffle(True, rng=g), lazy=True): every epoch builds a
+                                                 fresh reshuffle stage on the input, freezes it (one draw), iterates it *)
 
 Definition take_draw (st : store) (g : nat) : option (draw * store) :=
   match nth_error st g with
@@ -142,24 +144,34 @@ Fixpoint epoch (d : rds) (arrs : list (list nat)) (k : nat) (st : store) : optio
           end
       | None => None
       end
+  | XApply g d' =>
+      (* the index array of the freshly built stage is 0..n-1 again: the epoch order is the drawn permutation itself *)
+      match take_draw st g with
+      | Some (DShuffle sigma, st1) =>
+          match epoch d' arrs k st1 with
+          | Some (o, a, k', st2) => if length sigma =? length o then Some (map (fun i => nth i o 0) sigma, a, k', st2) else None
+          | None => None
+          end
+      | _ => None
+      end
   end.
 
 Fixpoint rngs_of (d : rds) : list nat :=
   match d with
   | XSrc _ => []
   | XDet d' | XPrefetch d' | XShuffleOnce _ d' => rngs_of d'
-  | XReShuffle g d' | XLocal g _ d' => g :: rngs_of d'
+  | XReShuffle g d' | XLocal g _ d' | XApply g d' => g :: rngs_of d'
   end.
 Fixpoint len_of (d : rds) : nat :=
   match d with
   | XSrc n => n
-  | XDet d' | XPrefetch d' | XReShuffle _ d' | XLocal _ _ d' => len_of d'
+  | XDet d' | XPrefetch d' | XReShuffle _ d' | XLocal _ _ d' | XApply _ d' => len_of d'
   | XShuffleOnce perm _ => length perm
   end.
 Fixpoint arrs0 (d : rds) : list (list nat) :=
   match d with
   | XSrc _ => []
-  | XDet d' | XPrefetch d' | XShuffleOnce _ d' | XLocal _ _ d' => arrs0 d'
+  | XDet d' | XPrefetch d' | XShuffleOnce _ d' | XLocal _ _ d' | XApply _ d' => arrs0 d'
   | XReShuffle _ d' => seq 0 (len_of d') :: arrs0 d'
   end.
 (* several epochs in a row *)
@@ -184,4 +196,5 @@ Fixpoint copy_pinned (d : rds) : rds :=
   | XShuffleOnce p d' => XShuffleOnce p (copy_pinned d')
   | XReShuffle _ d' => XReShuffle 0 (copy_pinned d')
   | XLocal _ B d' => XLocal 0 B (copy_pinned d')
+  | XApply g d' => XApply g (copy_pinned d')
   end.
